@@ -273,6 +273,7 @@ def run(ctx):
 
     ownership_rule(ctx, fg)
     ghost_scope_rule(ctx, fg)
+    table_scope_rule(ctx)
     r4 = ctx.rule("R20.4", "merge bookkeeping: the node mapping of mesh i is old_to_new[off_i : off_i + size_i] with the offsets used to shift its connectivity", min_instances=1)
     fm = repo.cls(MESH).methods["Merge"]
     r4.instance(fn=fm.qualname)
@@ -381,3 +382,55 @@ def ghost_scope_rule(ctx, fg):
         r.ok(f"ghost search over `{norm_text(src)[:70]}` (the rank's entry of the shared table)")
     else:
         r.fail(fg.qualname, "ghost-scope", fg.file, hit.lineno, "__Get_partitioned_groupElems", f"the ghost search uses `{norm_text(src)[:90]}`: the nodes claimed through the current element group only. On a mesh with several groups a rank that owns interface nodes but holds no element of this group gets no ghost of it: owned rows of the assembled system are incomplete")
+
+
+def table_scope_rule(ctx):
+    """R20.7: one ownership table for the whole partition: the per-rank node table handed to the per-type splitter is
+    created once, outside the loop over element types, so that a node claimed through one group (boundary segments)
+    stays owned by the same rank in every other group."""
+    repo = ctx.repo
+    r = ctx.rule("R20.7", "ownership table scope: the table passed to __Get_partitioned_groupElems is created outside the loop over element types (shared by all groups of the mesh)", min_instances=1)
+    mesher = repo.cls(MESHER)
+    sites = []
+    for nm, f in mesher.methods.items():
+        if f.cls is not mesher or nm != f.node.name:
+            continue
+        for n in ast.walk(f.node):
+            if isinstance(n, ast.Call) and (dotted(n.func) or "").endswith("__Get_partitioned_groupElems"):
+                sites.append((f, n))
+    if not sites:
+        raise AnalysisError("no call of __Get_partitioned_groupElems found")
+    callee = mesher.methods["__Get_partitioned_groupElems"]
+    ps = [p for p in callee.params() if p != "self"]
+    for f, call in sites:
+        r.instance(fn=f.qualname)
+        idx = ps.index("dict_rank_nodes") if "dict_rank_nodes" in ps else len(ps) - 1
+        arg = next((k.value for k in call.keywords if k.arg == ps[idx]), call.args[idx] if len(call.args) > idx else None)
+        if not isinstance(arg, ast.Name):
+            r.fail(f.qualname, "table-arg", f.file, call.lineno, f.name, "the ownership table is not passed as a variable shared by the calls")
+            continue
+        # loops enclosing the call
+        def enclosing_loops(root, target):
+            out = []
+
+            def walk(node, stack):
+                for ch in ast.iter_child_nodes(node):
+                    st2 = stack + [ch] if isinstance(ch, (ast.For, ast.While)) else stack
+                    if ch is target:
+                        out.extend(stack)
+                        return True
+                    if walk(ch, st2):
+                        return True
+                return False
+
+            walk(root, [])
+            return out
+
+        loops = enclosing_loops(f.node, call)
+        inside = [a for lp in loops for a in ast.walk(lp) if isinstance(a, (ast.Assign, ast.AnnAssign)) and any(isinstance(t, ast.Name) and t.id == arg.id for t in (a.targets if isinstance(a, ast.Assign) else [a.target]))]
+        if inside:
+            r.fail(f.qualname, "table-per-group", f.file, inside[0].lineno, f.name, f"`{arg.id}` is (re)created inside the loop over element types: node ownership is no longer shared between the groups of a partitioned mesh - a boundary node can be owned by one rank in the main group and by another in the boundary group, whose elements are then missing from the owning part")
+        elif not loops:
+            r.ok(f"{f.name}: single call, table `{arg.id}`")
+        else:
+            r.ok(f"{f.name}: `{arg.id}` is created before the loop over element types")
